@@ -10,6 +10,6 @@ def allocationRatioNum : Nat := 1
 def allocationRatioDen : Nat := 1
 def maxRecursionDepth : Nat := 1024
 def guiOutputBufferSize : Nat := 1024
-def callStackSize : Nat := 8388608
+def callStackSize : Nat := 33554432
 
 end Pici.Config
